@@ -23,6 +23,7 @@ type c20Type struct {
 	Kinds []string  `json:"kinds"`
 	Of    []c20Type `json:"of"`
 }
+
 func (t c20Type) MarshalJSON() ([]byte, error) {
 	k, of := t.Kinds, t.Of
 	if k == nil {
@@ -380,6 +381,7 @@ func c20CurrySeq(c *c20Case) map[string]interface{} {
 	}()
 	fnlog := [][]int{}
 	results := []int{}
+	buf := make([]int, 0, 16)
 	cur := fpgo.CurryNewGenerics(func(cd *fpgo.CurryDef[int, int], args ...int) int {
 		fnlog = append(fnlog, append([]int{}, args...))
 		return sum(args)
@@ -390,7 +392,14 @@ func c20CurrySeq(c *c20Case) map[string]interface{} {
 		}
 		switch c.Calls[i].Op {
 		case "Call":
-			cur.Call(c.Calls[i].Args...)
+			// the caller spreads a slice of its own (with spare capacity) and re-uses that buffer afterwards: what the curry has
+			// accumulated must not change with it
+			a := append(buf[:0], c.Calls[i].Args...)
+			cur.Call(a...)
+			for j := range a {
+				a[j] = 99
+			}
+			_ = append(a, 98, 97)
 		case "MarkDone":
 			cur.MarkDone()
 		case "Result":
